@@ -8,9 +8,10 @@
    no answer is foreign.  They rest on the index invariant of Proofs/IndexSync.v.
    The model's answers are compared with the answers of the real gRPC queries after every
    operation of the queries profile (trace records Q), together with an independent reference
-   enumeration of the raw records in the harness.  Redelegation queries, pagination, the
-   "reported balance is withdrawable" clause and the wasm bindings are not theorems (partial):
-   harness monitors. *)
+   enumeration of the raw records in the harness.  The redelegation query by (delegator, denom)
+   answers exactly the records filed under them, each once (C20_redelegations_exact / _once).
+   Pagination, the "reported balance is withdrawable" clause and the wasm bindings are not
+   theorems (partial): harness monitors and differential probes. *)
 From Coq Require Import ZArith List Bool.
 From Alliance Require Import Num KMap Types Monad Model Step Queries Spec Hoare.
 From Alliance.Proofs Require Import IndexSync QueriesExact.
@@ -45,3 +46,18 @@ Example C20_nonvacuous :
   = ([(10, 110, 50, 1); (10, 110, 5, 1)], [(10, 110, 40, 2)], [(11, 110, 30, 1)],
      [(10, 110, 50, 1); (10, 110, 5, 1); (11, 110, 30, 1); (10, 110, 40, 2)]).
 Proof. vm_compute. reflexivity. Qed.
+
+(* redelegations: the query by (delegator, denom) answers exactly the records filed under them, with the
+   record's own fields and the completion time of its key (any state) ... *)
+Theorem C20_redelegations_exact : forall s del dn a,
+  In a (q_redelegations s del dn) <->
+  exists dst ct r, In ([del; dn; dst; ct], r) (redels s) /\
+                   a = (r_del r, r_src r, r_dst r, r_denom r, r_amount r, ct).
+Proof. exact redelegations_query_exact. Qed.
+Print Assumptions C20_redelegations_exact.
+
+(* ... each record once *)
+Theorem C20_redelegations_once : forall h del dn, let s := run init_state h in
+  length (q_redelegations s del dn) = length (filter (fun kr => match fst kr with [d0; n0; _; _] => (d0 =? del) && (n0 =? dn) | _ => false end) (redels s)).
+Proof. exact redelegations_query_once. Qed.
+Print Assumptions C20_redelegations_once.
